@@ -36,7 +36,8 @@ CONFIGS = {
     "sse2":      ("Release", "-g -DBEE2_VERIF " + SAN, ["-DBASH_PLATFORM=BASH_SSE2"]),
     "avx2":      ("Release", "-g -DBEE2_VERIF " + SAN, ["-DBASH_PLATFORM=BASH_AVX2"]),
     "avx512":    ("Release", "-g -DBEE2_VERIF " + SAN, ["-DBASH_PLATFORM=BASH_AVX512"]),
-    "O0":        ("Debug",   "-O0 -DBEE2_VERIF", []),
+    "O0":        ("Debug",   "-O0 -DNDEBUG -DBEE2_VERIF", []),             # no optimisation, assertions off
+    "O0-assert": ("Debug",   "-O0 -DBEE2_VERIF", []),                      # assertions on
     "O2ndebug":  ("Release", "-O2 -DBEE2_VERIF", []),
     "tsan":      ("Release", "-g -O1 -DBEE2_VERIF -fsanitize=thread", []),
 }
